@@ -3,80 +3,38 @@
   Part 1: the checked heap operations and the three queries Underpriced / Discard / Cap.
 -/
 import Aqv.Lemmas.TxPoolCount
-import Aqv.Model.TxPriced
+import Aqv.Lemmas.TxHeap
 namespace Aqv.TxPool
 
-/-! ### checked wrappers -/
+/-! ### the heap operations and their monitor bit -/
 
-theorem sameMembers_iff {a b : List Tx} (h : sameMembers a b = true) : ∀ x, x ∈ a ↔ x ∈ b := by
-  unfold sameMembers at h
-  simp only [Bool.and_eq_true, List.all_eq_true, decide_eq_true_eq] at h
-  exact fun x => ⟨h.1.2 x, h.2 x⟩
+theorem sameMembers_of_perm {a b : List Tx} (h : a.Perm b) : sameMembers a b = true := by
+  unfold sameMembers
+  simp only [Bool.and_eq_true, List.all_eq_true, decide_eq_true_eq, beq_iff_eq]
+  exact ⟨⟨h.length_eq, fun x hx => h.mem_iff.mp hx⟩, fun x hx => h.mem_iff.mpr hx⟩
+
+/-- the monitor bit of Push never fires -/
+theorem pushC_eq (t : Tx) (l : List Tx) : pushC t l = (hPush t l, true) := by
+  unfold pushC
+  simp only
+  rw [sameMembers_of_perm ((hPush_perm t l).trans (List.perm_append_comm (l₁ := [t]) (l₂ := l)))]
+
+/-- the monitor bit of Init never fires -/
+theorem initC_eq (l : List Tx) : initC l = (hInit l, true) := by
+  unfold initC
+  simp only
+  rw [sameMembers_of_perm (hInit_perm l)]
 
 theorem pushC_mem (t : Tx) (l : List Tx) : ∀ x, x ∈ (pushC t l).1 ↔ x = t ∨ x ∈ l := by
   intro x
-  unfold pushC
+  rw [pushC_eq]
   simp only
-  split
-  · rename_i h
-    rw [sameMembers_iff h x, List.mem_append, List.mem_singleton]
-    exact Or.comm
-  · simp only [List.mem_append, List.mem_singleton]; exact Or.comm
+  rw [(hPush_perm t l).mem_iff, List.mem_cons]
 
 theorem initC_mem (l : List Tx) : ∀ x, x ∈ (initC l).1 ↔ x ∈ l := by
   intro x
-  unfold initC
-  simp only
-  split
-  · rename_i h; exact sameMembers_iff h x
-  · exact Iff.rfl
-
-theorem listMin_spec : ∀ (l : List Tx) (m : Tx), listMin l = some m → m ∈ l ∧ ∀ y ∈ l, m.price ≤ y.price := by
-  intro l
-  induction l with
-  | nil => intro m h; cases h
-  | cons x xs ih =>
-    intro m h
-    unfold listMin at h
-    cases hm : listMin xs with
-    | none =>
-      rw [hm] at h; simp only [Option.some.injEq] at h; subst h
-      have hnil : xs = [] := by
-        cases xs with
-        | nil => rfl
-        | cons y ys =>
-          exfalso
-          unfold listMin at hm
-          cases h2 : listMin ys <;> rw [h2] at hm <;> simp at hm
-          split at hm <;> cases hm
-      subst hnil
-      exact ⟨List.mem_cons_self, fun y hy => by simp at hy; subst hy; exact Nat.le_refl _⟩
-    | some m' =>
-      rw [hm] at h
-      simp only at h
-      have := ih m' hm
-      split at h
-      · rename_i hlt
-        simp only [Option.some.injEq] at h; subst h
-        refine ⟨List.mem_cons_of_mem _ this.1, fun y hy => ?_⟩
-        rcases List.mem_cons.mp hy with rfl | hy'
-        · omega
-        · exact this.2 y hy'
-      · rename_i hlt
-        simp only [Option.some.injEq] at h; subst h
-        refine ⟨List.mem_cons_self, fun y hy => ?_⟩
-        rcases List.mem_cons.mp hy with rfl | hy'
-        · exact Nat.le_refl _
-        · have := this.2 y hy'; omega
-
-theorem listMin_some {l : List Tx} (h : l ≠ []) : ∃ m, listMin l = some m := by
-  cases l with
-  | nil => exact absurd rfl h
-  | cons x xs =>
-    unfold listMin
-    cases listMin xs with
-    | none => exact ⟨x, rfl⟩
-    | some m => simp only; split <;> exact ⟨_, rfl⟩
+  rw [initC_eq]
+  exact (hInit_perm l).mem_iff
 
 /-- what a pop of the priority queue guarantees -/
 structure PopSpec (l : List Tx) (x : Tx) (rest : List Tx) : Prop where
@@ -86,45 +44,31 @@ structure PopSpec (l : List Tx) (x : Tx) (rest : List Tx) : Prop where
   sub   : ∀ y ∈ rest, y ∈ l
   cover : ∀ y ∈ l, y = x ∨ y ∈ rest
 
-theorem popOK_spec {l : List Tx} {x : Tx} {rest : List Tx} (h : popOK l x rest = true) : PopSpec l x rest := by
-  unfold popOK at h
-  simp only [Bool.and_eq_true, decide_eq_true_eq, List.all_eq_true, beq_iff_eq, Bool.or_eq_true] at h
-  exact ⟨h.1.1.1.1, h.1.1.1.2, h.1.1.2, h.1.2, h.2⟩
+theorem popOK_of_spec {l : List Tx} {x : Tx} {rest : List Tx} (h : PopSpec l x rest) : popOK l x rest = true := by
+  unfold popOK
+  simp only [Bool.and_eq_true, decide_eq_true_eq, List.all_eq_true, beq_iff_eq, Bool.or_eq_true]
+  exact ⟨⟨⟨⟨h.mem, h.min⟩, h.len⟩, h.sub⟩, h.cover⟩
 
-theorem hPop_none {l : List Tx} (h : hPop l = none) : l = [] := by
-  unfold hPop at h
-  split at h
-  · rename_i he; exact List.isEmpty_iff.mp he
-  · cases h
-
-theorem popC_spec {l : List Tx} {x : Tx} {rest : List Tx} {ok : Bool} (h : popC l = some (x, rest, ok)) :
-    PopSpec l x rest := by
+/-- Pop on a heap, proved from the array algorithm (no run-time check involved): the popped element is a minimum, the rest
+    is the array without it and a heap again, and the monitor bit does not fire. -/
+theorem popC_spec {l : List Tx} {x : Tx} {rest : List Tx} {ok : Bool} (hh : IsHeap l) (h : popC l = some (x, rest, ok)) :
+    PopSpec l x rest ∧ IsHeap rest ∧ ok = true := by
   unfold popC at h
   cases hp : hPop l with
   | none => rw [hp] at h; cases h
   | some pr =>
     obtain ⟨y, r⟩ := pr
     rw [hp] at h
-    simp only at h
-    split at h
-    · rename_i hok
-      simp only [Option.some.injEq, Prod.mk.injEq] at h
-      obtain ⟨rfl, rfl, _⟩ := h
-      exact popOK_spec hok
-    · cases hm : listMin l with
-      | none => rw [hm] at h; cases h
-      | some m =>
-        rw [hm] at h
-        simp only [Option.some.injEq, Prod.mk.injEq] at h
-        obtain ⟨rfl, rfl, _⟩ := h
-        have hs := listMin_spec l m hm
-        exact { mem := hs.1, min := hs.2
-                len := by rw [List.length_erase_of_mem hs.1]; have := List.length_pos_of_mem hs.1; omega
-                sub := fun y hy => List.mem_of_mem_erase hy
-                cover := fun y hy => by
-                  by_cases e : y = m
-                  · exact Or.inl e
-                  · exact Or.inr ((List.mem_erase_of_ne e).mpr hy) }
+    simp only [Option.some.injEq, Prod.mk.injEq] at h
+    obtain ⟨rfl, rfl, hok⟩ := h
+    obtain ⟨hperm, hmin, hrest⟩ := heap_pop_spec l y r hh hp
+    have hs : PopSpec l y r :=
+      { mem := hperm.mem_iff.mpr List.mem_cons_self
+        min := hmin
+        len := by have := hperm.length_eq; simp only [List.length_cons] at this; omega
+        sub := fun z hz => hperm.mem_iff.mpr (List.mem_cons_of_mem _ hz)
+        cover := fun z hz => List.mem_cons.mp (hperm.mem_iff.mp hz) }
+    exact ⟨hs, hrest, by rw [← hok]; exact popOK_of_spec hs⟩
 
 theorem popC_none {l : List Tx} (h : popC l = none) : l = [] := by
   unfold popC at h
@@ -133,17 +77,37 @@ theorem popC_none {l : List Tx} (h : popC l = none) : l = [] := by
   | some pr =>
     obtain ⟨y, r⟩ := pr
     rw [hp] at h
-    simp only at h
-    split at h
-    · cases h
-    · apply Decidable.byContradiction
-      intro hne
-      obtain ⟨m, hm⟩ := listMin_some hne
-      rw [hm] at h; cases h
+    cases h
+
+/-- the price list is in order: its array is a heap and (for `b = true`) the driver's assertion has not fired; the
+    `b = false` instance is the plain heap order, showing that nothing proved below depends on the monitor bit -/
+def PricedOK (b : Bool) (P : Priced) : Prop := IsHeap P.items ∧ (b = true → P.exact = true)
+
+variable {b : Bool}
+
+theorem pricedOK_pop {P : Priced} {x : Tx} {rest : List Tx} {ok : Bool} (hok : PricedOK b P)
+    (hp : popC P.items = some (x, rest, ok)) (st : Int) :
+    PricedOK b { items := rest, stales := st, exact := P.exact && ok } := by
+  obtain ⟨_, h2, h3⟩ := popC_spec hok.1 hp
+  exact ⟨h2, fun hb => by simp [hok.2 hb, h3]⟩
 
 /-! ### Put / Removed -/
 
 theorem put_mem (P : Priced) (t : Tx) : ∀ x, x ∈ (P.put t).items ↔ x = t ∨ x ∈ P.items := pushC_mem t P.items
+
+theorem put_ok (P : Priced) (t : Tx) (h : PricedOK b P) : PricedOK b (P.put t) := by
+  unfold Priced.put
+  simp only
+  rw [pushC_eq]
+  exact ⟨hPush_heap t P.items h.1, fun hb => by simp [h.2 hb]⟩
+
+theorem removed_ok (P : Priced) (A : List Tx) (h : PricedOK b P) : PricedOK b (P.removed A) := by
+  unfold Priced.removed
+  simp only
+  split
+  · exact h
+  · rw [initC_eq]
+    exact ⟨heap_init_establishes A, fun hb => by simp [h.2 hb]⟩
 
 /-- after `delete; Removed()` the heap still covers whatever of the new table it covered before — or exactly the table -/
 theorem removed_cov (P : Priced) (A : List Tx) (x : Tx) (hx : x ∈ A) :
@@ -153,6 +117,11 @@ theorem removed_cov (P : Priced) (A : List Tx) (x : Tx) (hx : x ∈ A) :
   split
   · exact ⟨fun h => h, Or.inl rfl⟩
   · exact ⟨fun _ => (initC_mem A x).mpr hx, Or.inr (fun y => initC_mem A y)⟩
+
+theorem putAll_ok (ts : List Tx) : ∀ (P : Priced), PricedOK b P → PricedOK b (ts.foldl (fun P x => P.put x) P) := by
+  induction ts with
+  | nil => intro P h; exact h
+  | cons t rest ih => intro P h; exact ih _ (put_ok P t h)
 
 theorem putAll_mem (P : Priced) (ts : List Tx) : ∀ x, x ∈ (ts.foldl (fun P x => P.put x) P).items ↔ x ∈ ts ∨ x ∈ P.items := by
   induction ts generalizing P with
@@ -174,32 +143,34 @@ theorem putAll_mem (P : Priced) (ts : List Tx) : ∀ x, x ∈ (ts.foldl (fun P x
 
 /-! ### Underpriced -/
 
-theorem dropStaleHeads_spec : ∀ (fuel : Nat) (P : Priced) (all : List Tx), P.items.length < fuel →
+theorem dropStaleHeads_spec : ∀ (fuel : Nat) (P : Priced) (all : List Tx), P.items.length < fuel → PricedOK b P →
     (∀ x ∈ (Priced.dropStaleHeads fuel P all).items, x ∈ P.items) ∧
     (∀ x ∈ all, x ∈ P.items → x ∈ (Priced.dropStaleHeads fuel P all).items) ∧
-    (∀ x rest ok, popC (Priced.dropStaleHeads fuel P all).items = some (x, rest, ok) → x ∈ all) := by
+    (∀ x rest ok, popC (Priced.dropStaleHeads fuel P all).items = some (x, rest, ok) → x ∈ all) ∧
+    PricedOK b (Priced.dropStaleHeads fuel P all) := by
   intro fuel
   induction fuel with
   | zero => intro P all h; omega
   | succ f ih =>
-    intro P all hlen
+    intro P all hlen hok
     unfold Priced.dropStaleHeads
     cases hp : popC P.items with
     | none =>
       simp only
-      refine ⟨fun x h => h, fun x _ h => h, fun x rest ok h => ?_⟩
+      refine ⟨fun x h => h, fun x _ h => h, fun x rest ok h => ?_, hok⟩
       rw [hp] at h; cases h
     | some pr =>
       obtain ⟨y, rest, ok⟩ := pr
       simp only
-      have hs := popC_spec hp
+      have hs := (popC_spec hok.1 hp).1
       by_cases hy : y ∈ all
       · rw [if_pos hy]
-        refine ⟨fun x h => h, fun x _ h => h, fun x r o h => ?_⟩
+        refine ⟨fun x h => h, fun x _ h => h, fun x r o h => ?_, hok⟩
         rw [hp] at h; simp only [Option.some.injEq, Prod.mk.injEq] at h; rw [← h.1]; exact hy
       · rw [if_neg hy]
         have := ih { items := rest, stales := P.stales - 1, exact := P.exact && ok } all (by simp only; have := hs.len; omega)
-        refine ⟨fun x h => hs.sub x (this.1 x h), fun x hx h => this.2.1 x hx ?_, this.2.2⟩
+          (pricedOK_pop hok hp _)
+        refine ⟨fun x h => hs.sub x (this.1 x h), fun x hx h => this.2.1 x hx ?_, this.2.2.1, this.2.2.2⟩
         rcases hs.cover x h with e | e
         · subst e; exact absurd hx hy
         · exact e
@@ -232,13 +203,14 @@ theorem minPrice_spec : ∀ (l : List Tx), (minPrice l = none ↔ l = []) ∧
 
 /-- **Underpriced refines the oracle-free definition**: when the heap covers `all`, the heap-based answer is the
     model's `underpriced` (compare with the cheapest pooled price), and the heap keeps covering `all`. -/
-theorem underpriced_refines (s : Pool) (P : Priced) (t : Tx) (hcov : ∀ x ∈ s.all, x ∈ P.items) :
-    (P.underpriced s.all s.locals t).1 = s.underpriced t ∧ ∀ x ∈ s.all, x ∈ (P.underpriced s.all s.locals t).2.items := by
+theorem underpriced_refines (s : Pool) (P : Priced) (t : Tx) (hcov : ∀ x ∈ s.all, x ∈ P.items) (hok : PricedOK b P) :
+    (P.underpriced s.all s.locals t).1 = s.underpriced t ∧ (∀ x ∈ s.all, x ∈ (P.underpriced s.all s.locals t).2.items) ∧
+    PricedOK b (P.underpriced s.all s.locals t).2 := by
   unfold Priced.underpriced Pool.underpriced Pool.isLocal
   by_cases hl : t.sender ∈ s.locals
-  · simp only [hl, if_true, decide_true]; exact ⟨trivial, hcov⟩
+  · simp only [hl, if_true, decide_true]; exact ⟨trivial, hcov, hok⟩
   · simp only [hl, if_false, decide_false, Bool.false_eq_true]
-    obtain ⟨d1, d2, d3⟩ := dropStaleHeads_spec (P.items.length + 1) P s.all (Nat.lt_succ_self _)
+    obtain ⟨d1, d2, d3, d4⟩ := dropStaleHeads_spec (P.items.length + 1) P s.all (Nat.lt_succ_self _) hok
     have hcov' : ∀ x ∈ s.all, x ∈ (Priced.dropStaleHeads (P.items.length + 1) P s.all).items := fun x hx => d2 x hx (hcov x hx)
     cases hp : popC (Priced.dropStaleHeads (P.items.length + 1) P s.all).items with
     | none =>
@@ -248,14 +220,14 @@ theorem underpriced_refines (s : Pool) (P : Priced) (t : Tx) (hcov : ∀ x ∈ s
         cases ha : s.all with
         | nil => rfl
         | cons y ys => have := hcov' y (by rw [ha]; exact List.mem_cons_self); rw [hnil] at this; cases this
-      refine ⟨?_, hcov'⟩
+      refine ⟨?_, hcov', d4⟩
       rw [(minPrice_spec s.all).1.mpr hall]
     | some pr =>
       obtain ⟨x, rest, ok⟩ := pr
       simp only
-      have hs := popC_spec hp
+      have hs := (popC_spec d4.1 hp).1
       have hxall := d3 x rest ok hp
-      refine ⟨?_, hcov'⟩
+      refine ⟨?_, hcov', d4⟩
       cases hm : minPrice s.all with
       | none => have := (minPrice_spec s.all).1.mp hm; rw [this] at hxall; cases hxall
       | some m =>
@@ -268,15 +240,16 @@ theorem underpriced_refines (s : Pool) (P : Priced) (t : Tx) (hcov : ∀ x ∈ s
 
 /-! ### Discard and Cap -/
 
-structure LoopInv2 (all : List Tx) (locals : List Addr) (P : Priced) (drop save : List Tx) : Prop where
+structure LoopInv2 (b : Bool) (all : List Tx) (locals : List Addr) (P : Priced) (drop save : List Tx) : Prop where
   cover : ∀ u ∈ all, u ∈ drop ∨ u ∈ save ∨ u ∈ P.items
   cheap : ∀ v ∈ drop, ∀ u ∈ P.items, v.price ≤ u.price
   dperm : ∀ v ∈ drop, v ∈ all ∧ v.sender ∉ locals
   sperm : ∀ v ∈ save, v ∈ all ∧ v.sender ∈ locals
+  ok    : PricedOK b P
 
 theorem discardLoop_spec : ∀ (fuel : Nat) (P : Priced) (all : List Tx) (locals : List Addr) (count : Nat) (drop save : List Tx),
-    P.items.length < fuel → LoopInv2 all locals P drop save →
-    LoopInv2 all locals (Priced.discardLoop fuel P all locals count drop save).2.2
+    P.items.length < fuel → LoopInv2 b all locals P drop save →
+    LoopInv2 b all locals (Priced.discardLoop fuel P all locals count drop save).2.2
       (Priced.discardLoop fuel P all locals count drop save).1 (Priced.discardLoop fuel P all locals count drop save).2.1 ∧
     (Priced.discardLoop fuel P all locals count drop save).1.length ≤ drop.length + count := by
   intro fuel
@@ -293,7 +266,8 @@ theorem discardLoop_spec : ∀ (fuel : Nat) (P : Priced) (all : List Tx) (locals
       | some pr =>
         obtain ⟨x, rest, ok⟩ := pr
         simp only
-        have hs := popC_spec hp
+        have hs := (popC_spec hinv.ok.1 hp).1
+        have hok' := fun st => pricedOK_pop hinv.ok hp st
         have hl : rest.length < f := by have := hs.len; omega
         by_cases hx : x ∈ all
         · rw [if_neg (fun h : x ∉ all => h hx)]
@@ -309,6 +283,7 @@ theorem discardLoop_spec : ∀ (fuel : Nat) (P : Priced) (all : List Tx) (locals
                         · exact Or.inr (Or.inr e)
                     cheap := fun v hv u hu => hinv.cheap v hv u (hs.sub u hu)
                     dperm := hinv.dperm
+                    ok := hok' _
                     sperm := fun v hv => by
                       rcases List.mem_append.mp hv with h | h
                       · exact hinv.sperm v h
@@ -330,6 +305,7 @@ theorem discardLoop_spec : ∀ (fuel : Nat) (P : Priced) (all : List Tx) (locals
                   rcases List.mem_append.mp hv with h | h
                   · exact hinv.dperm v h
                   · simp at h; subst h; exact ⟨hx, hloc⟩
+                ok := hok' _
                 sperm := hinv.sperm }
             refine ⟨this.1, ?_⟩
             have := this.2
@@ -345,22 +321,22 @@ theorem discardLoop_spec : ∀ (fuel : Nat) (P : Priced) (all : List Tx) (locals
                       · subst e; exact absurd hu hx
                       · exact Or.inr (Or.inr e)
                   cheap := fun v hv u hu => hinv.cheap v hv u (hs.sub u hu)
-                  dperm := hinv.dperm, sperm := hinv.sperm }
+                  dperm := hinv.dperm, sperm := hinv.sperm, ok := hok' _ }
 
 /-- **Discard refines the oracle**: what the heap drops is pooled, not local, at most `count` many (so the model's `add`
     with these victims performs exactly these removals), cheapest first (no pooled non-local transaction that survives is
     cheaper than a dropped one), and afterwards the heap covers everything pooled except what it dropped. -/
-theorem discard_refines (s : Pool) (P : Priced) (count : Nat) (hcov : ∀ x ∈ s.all, x ∈ P.items) :
+theorem discard_refines (s : Pool) (P : Priced) (count : Nat) (hcov : ∀ x ∈ s.all, x ∈ P.items) (hok : PricedOK b P) :
     let d := P.discard s.all s.locals count
     (∀ v ∈ d.1, v ∈ s.all ∧ v.sender ∉ s.locals) ∧ d.1.length ≤ count ∧
     s.sanitizeVictims count d.1 = d.1 ∧
     (∀ v ∈ d.1, ∀ u ∈ s.all, u.sender ∉ s.locals → u ∉ d.1 → v.price ≤ u.price) ∧
-    (∀ u ∈ s.all, u ∉ d.1 → u ∈ d.2.items) := by
+    (∀ u ∈ s.all, u ∉ d.1 → u ∈ d.2.items) ∧ PricedOK b d.2 := by
   simp only
   unfold Priced.discard
   simp only
   obtain ⟨hinv, hlen⟩ := discardLoop_spec (P.items.length + 1) P s.all s.locals count [] [] (Nat.lt_succ_self _)
-    { cover := fun u hu => Or.inr (Or.inr (hcov u hu)), cheap := by simp, dperm := by simp, sperm := by simp }
+    { cover := fun u hu => Or.inr (Or.inr (hcov u hu)), cheap := by simp, dperm := by simp, sperm := by simp, ok := hok }
   generalize Priced.discardLoop (P.items.length + 1) P s.all s.locals count [] [] = r at hinv hlen
   simp only [List.length_nil, Nat.zero_add] at hlen
   have hcovf : ∀ u ∈ s.all, u ∉ r.1 → u ∈ (r.2.1.foldl (fun P x => P.put x) r.2.2).items := by
@@ -370,7 +346,7 @@ theorem discard_refines (s : Pool) (P : Priced) (count : Nat) (hcov : ∀ x ∈ 
     · exact absurd h hnd
     · exact Or.inl h
     · exact Or.inr h
-  refine ⟨hinv.dperm, hlen, ?_, ?_, hcovf⟩
+  refine ⟨hinv.dperm, hlen, ?_, ?_, hcovf, putAll_ok _ _ hinv.ok⟩
   · unfold Pool.sanitizeVictims
     have : r.1.filter (fun t => decide (t ∈ s.all) && !s.isLocal t.sender) = r.1 := by
       rw [List.filter_eq_self]
@@ -384,14 +360,15 @@ theorem discard_refines (s : Pool) (P : Priced) (count : Nat) (hcov : ∀ x ∈ 
     · exact absurd (hinv.sperm u h).2 hnl
     · exact hinv.cheap v hv u h
 
-structure LoopInvC (all : List Tx) (locals : List Addr) (th : Nat) (P : Priced) (drop save : List Tx) : Prop where
+structure LoopInvC (b : Bool) (all : List Tx) (locals : List Addr) (th : Nat) (P : Priced) (drop save : List Tx) : Prop where
   cover : ∀ u ∈ all, u ∈ drop ∨ u ∈ save ∨ u ∈ P.items
   dperm : ∀ v ∈ drop, v ∈ all ∧ v.sender ∉ locals ∧ v.price < th
   sperm : ∀ v ∈ save, v ∈ all ∧ (v.sender ∈ locals ∨ th ≤ v.price)
+  ok    : PricedOK b P
 
 theorem capLoop_spec : ∀ (fuel : Nat) (P : Priced) (all : List Tx) (locals : List Addr) (th : Nat) (drop save : List Tx),
-    P.items.length < fuel → LoopInvC all locals th P drop save →
-    LoopInvC all locals th (Priced.capLoop fuel P all locals th drop save).2.2
+    P.items.length < fuel → LoopInvC b all locals th P drop save →
+    LoopInvC b all locals th (Priced.capLoop fuel P all locals th drop save).2.2
       (Priced.capLoop fuel P all locals th drop save).1 (Priced.capLoop fuel P all locals th drop save).2.1 ∧
     (∀ u ∈ all, u.sender ∉ locals → u.price < th → u ∈ (Priced.capLoop fuel P all locals th drop save).1) := by
   intro fuel
@@ -413,7 +390,8 @@ theorem capLoop_spec : ∀ (fuel : Nat) (P : Priced) (all : List Tx) (locals : L
     | some pr =>
       obtain ⟨x, rest, ok⟩ := pr
       simp only
-      have hs := popC_spec hp
+      have hs := (popC_spec hinv.ok.1 hp).1
+      have hok' := fun st => pricedOK_pop hinv.ok hp st
       have hl : rest.length < f := by have := hs.len; omega
       have hcover : ∀ (d sv : List Tx), (∀ u ∈ drop, u ∈ d) → (∀ u ∈ save, u ∈ sv) → (x ∈ all → x ∈ d ∨ x ∈ sv) →
           ∀ u ∈ all, u ∈ d ∨ u ∈ sv ∨ u ∈ rest := by
@@ -434,6 +412,7 @@ theorem capLoop_spec : ∀ (fuel : Nat) (P : Priced) (all : List Tx) (locals : L
           refine ⟨?_, fun u hu hnl hlt => ?_⟩
           · exact { cover := hcover drop (save ++ [x]) (fun _ h => h) (fun _ h => List.mem_append_left _ h) (fun _ => Or.inr (by simp))
                     dperm := hinv.dperm
+                    ok := hok' _
                     sperm := fun v hv => by
                       rcases List.mem_append.mp hv with h | h
                       · exact hinv.sperm v h
@@ -450,6 +429,7 @@ theorem capLoop_spec : ∀ (fuel : Nat) (P : Priced) (all : List Tx) (locals : L
             apply ih _ all locals th drop (save ++ [x]) hl
             exact { cover := hcover drop (save ++ [x]) (fun _ h => h) (fun _ h => List.mem_append_left _ h) (fun _ => Or.inr (by simp))
                     dperm := hinv.dperm
+                    ok := hok' _
                     sperm := fun v hv => by
                       rcases List.mem_append.mp hv with h | h
                       · exact hinv.sperm v h
@@ -461,25 +441,27 @@ theorem capLoop_spec : ∀ (fuel : Nat) (P : Priced) (all : List Tx) (locals : L
                       rcases List.mem_append.mp hv with h | h
                       · exact hinv.dperm v h
                       · simp at h; subst h; exact ⟨hx, hloc, by omega⟩
+                    ok := hok' _
                     sperm := hinv.sperm }
       · rw [if_pos hx]
         apply ih _ all locals th drop save hl
         exact { cover := hcover drop save (fun _ h => h) (fun _ h => h) (fun h => absurd h hx)
-                dperm := hinv.dperm, sperm := hinv.sperm }
+                dperm := hinv.dperm, sperm := hinv.sperm, ok := hok' _ }
 
 /-- **Cap refines SetGasPrice**: what the heap drops is pooled, not local and cheaper than the new floor (so the model's
     `setGasPriceO` performs exactly these removals), it is *every* such transaction (the set `setGasPrice` removes), and
     afterwards the heap covers everything pooled except what it dropped. -/
-theorem cap_refines (s : Pool) (P : Priced) (th : Nat) (hcov : ∀ x ∈ s.all, x ∈ P.items) :
+theorem cap_refines (s : Pool) (P : Priced) (th : Nat) (hcov : ∀ x ∈ s.all, x ∈ P.items) (hok : PricedOK b P) :
     let d := P.cap s.all s.locals th
-    (∀ v, v ∈ d.1 ↔ v ∈ s.all ∧ v.price < th ∧ v.sender ∉ s.locals) ∧ (∀ u ∈ s.all, u ∉ d.1 → u ∈ d.2.items) := by
+    (∀ v, v ∈ d.1 ↔ v ∈ s.all ∧ v.price < th ∧ v.sender ∉ s.locals) ∧ (∀ u ∈ s.all, u ∉ d.1 → u ∈ d.2.items) ∧
+    PricedOK b d.2 := by
   simp only
   unfold Priced.cap
   simp only
   obtain ⟨hinv, hcomp⟩ := capLoop_spec (P.items.length + 1) P s.all s.locals th [] [] (Nat.lt_succ_self _)
-    { cover := fun u hu => Or.inr (Or.inr (hcov u hu)), dperm := by simp, sperm := by simp }
+    { cover := fun u hu => Or.inr (Or.inr (hcov u hu)), dperm := by simp, sperm := by simp, ok := hok }
   generalize Priced.capLoop (P.items.length + 1) P s.all s.locals th [] [] = r at hinv hcomp
-  refine ⟨fun v => ⟨fun hv => ?_, fun hv => hcomp v hv.1 hv.2.2 hv.2.1⟩, fun u hu hnd => ?_⟩
+  refine ⟨fun v => ⟨fun hv => ?_, fun hv => hcomp v hv.1 hv.2.2 hv.2.1⟩, fun u hu hnd => ?_, putAll_ok _ _ hinv.ok⟩
   · have := hinv.dperm v hv; exact ⟨this.1, this.2.2, this.2.1⟩
   · rw [putAll_mem]
     rcases hinv.cover u hu with h | h | h
